@@ -21,7 +21,7 @@ import os
 import sys
 import struct
 
-from vf import core
+from vf import core, streams
 from vf.enc import elf as W
 from vf.choose import HypChooser
 
@@ -815,6 +815,17 @@ def run_case(ctx, case):
     except Exception as e:  # noqa - property (a): anything but ELFError (incl. MemoryError, RecursionError) is a violation
         ctx.count('open.violation')
         ctx.fail_exc('open', e, case)
+    # (a) holds for every kind of stream: a real file, a memory map and a minimal read/seek/tell object see the same bytes; their seek()
+    # fails differently for unrepresentable offsets (ValueError / OSError instead of BytesIO's OverflowError) and may return None
+    for kind in streams.KINDS:
+        try:
+            with streams.opened(data, kind) as st2:
+                ELFFile(st2)
+            ctx.count('open.%s.ok' % kind)
+        except ELFError:
+            ctx.count('open.%s.ELFError' % kind)
+        except Exception as e:  # noqa
+            ctx.fail_exc('open|stream=%s' % kind, e, case)
     nsec = nseg = None
     if ef is not None:
         b = Battery(ef, stream, len(data))
